@@ -839,41 +839,41 @@ def run_shard(ctx):
 def replay(case):
     fam = case.get('family')
     if fam not in RUN:
-        return []
+        return None            # not a case this check generates: cannot be replayed
     try:
         if fam == 'server':
             if case.get('auth') not in (None, 'login', 'plain'):
-                return []
+                return None            # not a case this check generates: cannot be replayed
             script = AUTH_SCRIPTS[case['auth']] if case.get('auth') else SERVER_SCRIPT
             case = dict(case, after=max(0, min(len(script) - 1, int(case['after']))))
             if case.get('mode') not in ('silent', 'midline', 'trickle', 'pipelined-partial'):
-                return []
+                return None            # not a case this check generates: cannot be replayed
         elif fam == 'client':
             if case.get('stage') not in CLIENT_STAGES or case.get('kind') not in ('smtp', 'lmtp') or case.get('mode') not in ('silent', 'trickle'):
-                return []
+                return None            # not a case this check generates: cannot be replayed
             case = dict(case, nrcpt=max(1, min(2, int(case.get('nrcpt', 1)))), pipelining=bool(case.get('pipelining')))
             if case.get('reject') not in (None, 'mail', 'rcpt', 'eod', 'eod-mixed'):
-                return []
+                return None            # not a case this check generates: cannot be replayed
         elif fam == 'http' and case.get('mode') not in ('silent', 'trickle', 'trickle-headers'):
-            return []
+            return None            # not a case this check generates: cannot be replayed
         elif fam == 'server-pp':
             if case.get('version') not in ('v1', 'v2', 'auto') or case.get('mode') not in ('silent', 'partial'):
-                return []
+                return None            # not a case this check generates: cannot be replayed
         elif fam == 'server-noread':
             if case.get('what') not in ('noop', 'ehlo', 'bad'):
-                return []
+                return None            # not a case this check generates: cannot be replayed
         elif fam == 'server-tls':
             if case.get('how') not in ('immediate', 'starttls') or case.get('mode') not in ('silent', 'partial'):
-                return []
+                return None            # not a case this check generates: cannot be replayed
         elif fam == 'https':
             if case.get('mode') not in ('handshake', 'response'):
-                return []
+                return None            # not a case this check generates: cannot be replayed
         elif fam == 'http-reuse':
             if case.get('first') not in ('ok', 'error') or case.get('mode') not in ('silent', 'trickle'):
-                return []
+                return None            # not a case this check generates: cannot be replayed
         elif fam == 'client-idle':
             if case.get('kind') not in ('smtp', 'lmtp') or not isinstance(case.get('partial'), str) or case['partial'].endswith('\n'):
-                return []
+                return None            # not a case this check generates: cannot be replayed
         return RUN[fam](case, 5.0)[0]
     except (KeyError, ValueError, TypeError):
-        return []
+        return None            # not a case this check generates: cannot be replayed
